@@ -3,3 +3,6 @@ import XsProps.C01
 import XsProps.C05
 import XsProps.C06
 import XsProps.C07
+import XsProps.C08
+import XsProps.C09
+import XsProps.C20
